@@ -2,6 +2,7 @@
    Cases (fields are byte strings; numbers are decimal ASCII):
      time S O G | sig NAME EMAIL S O G | blob DATA
      tree N (MODE NAME OID)*                                      (Tree and TreeRef: same code)
+     treedec BYTES                                                TreeRef::from_bytes
      commit|commitref TREE NP P* A(5) C(5) HASENC ENC NX (K V)* MSG
      tag|tagref TARGET KIND NAME HAST T(5) MSG HASPGP PGP
    Object transcript:  size=<n|PANIC> hdr=<hex|PANIC> <ok HEX|err|PANIC> *)
@@ -99,6 +100,14 @@ Definition run_model (fs : list bytes) : bytes :=
       bs "T " ++ show_obj KTree (Ok (tree_size es)) (tree_write true es)
       ++ bs " R " ++ show_obj KTree (Ok (tree_size es)) (tree_write true es)
     else bs "?"
+  else if bytes_eqb op (bs "treedec") then
+    match tree_decode (fld a) with
+    | Ok es => bs "ok" ++ concat (map (fun e => bs " " ++ N_to_dec (e_mode e) ++ bs ":" ++ hex_encode (e_name e)
+                                                 ++ bs ":" ++ hex_encode (e_oid e)) es)
+    | Err _ => bs "err"
+    | Panic => bs "PANIC"
+    | OutOfFuel => bs "HANG"
+    end
   else if bytes_eqb op (bs "commit") then
     let c := parse_commit a in
     if all_len20 (c_tree c :: c_parents c) then
